@@ -122,7 +122,7 @@ def run(ctx, model):
         case = {"seed": ctx.seed, "index": i, "project": lx.project_summary(p), "micro800": p.get("micro800", False),
                 "tags": [r[0] for r in reqs], "invalid": [r[0] for r in reqs if r[3]]}
         try:
-            res = core.with_budget(120, sess.d.read, *[r[0] for r in reqs])
+            res = core.with_budget(300, sess.d.read, *[r[0] for r in reqs])
         except BaseException as e:  # noqa
             if isinstance(e, (KeyboardInterrupt, SystemExit)):
                 raise
@@ -166,7 +166,7 @@ def run(ctx, model):
         if wreqs:
             wcase = dict(case, tags=[r[0] for r in wreqs], invalid=[r[0] for r in wreqs if r[3]], values=[repr(r[1])[:60] for r in wreqs])
             try:
-                wres = core.with_budget(120, sess.d.write, *[(t, v) for t, v, _, _ in wreqs])
+                wres = core.with_budget(300, sess.d.write, *[(t, v) for t, v, _, _ in wreqs])
             except BaseException as e:  # noqa
                 if isinstance(e, (KeyboardInterrupt, SystemExit)):
                     raise
